@@ -321,7 +321,9 @@ pub fn check_compact(s: &ThetaSketch, c: &CompactThetaSketch, ordered: bool, got
     if c.num_retained() != ce.len() {
         out.push(("theta.compact.num_retained".into(), "compact num_retained != iter count".into()));
     }
-    if !got.is_empty() && c.theta64() != s.theta64() {
+    // 'non-empty' means updated at least once, whether or not anything was retained: a sampling
+    // sketch whose updates were all screened out keeps its theta when compacted
+    if !s.is_empty() && c.theta64() != s.theta64() {
         out.push(("theta.compact.theta".into(), format!("compact theta {} but sketch theta {}", c.theta64(), s.theta64())));
     }
     if c.estimate().to_bits() != s.estimate().to_bits() {
